@@ -737,6 +737,11 @@ func runOne(r *vh.Run, sc Scenario) {
 		sc.Name, sc.Transport, sc.Closer, sc.N, sc.Delta, res.Class, res.Wrote, res.WriteErr, res.Read, res.ReadErr, res.CloseDur, res.QueueFullAtClose, res.VirtualMs,
 		f.NSeg, f.CloseSeq, f.SentBeforeClose, f.SentEver, f.PayloadSent, f.CloseSent, f.CloseDelivered, f.InOrder, f.MinPeerWindow, ranges(f.Have))
 	r.Count("transport=" + sc.Transport)
+	if res.QueueFullAtClose {
+		// C03_close_request_always_queued: the admission test of writeChunk keeps one slot of the send queue free, so the close
+		// request of a graceful Close is queued behind the data; here a Write that returned (n, nil) took the last slot
+		failOnce(r, "write-left-no-slot-for-close-request", fmt.Sprintf("%s: after a successful Write of %d bytes the send queue has no free slot (Remaining() = 0): the close request of a graceful Close can only overtake the %d bytes written", sc.Transport, sc.WriteSize, res.Wrote), sc, res)
+	}
 	r.Count("closer=" + sc.Closer)
 	r.Count("fault=" + sc.Fault.Kind)
 	r.Count("class=" + res.Class)
